@@ -280,6 +280,11 @@ package eval
 //@ spec func isVar(v types.Value) bool = (v is types.EntityUID) && v.(types.EntityUID).Type == types.EntityType("__cedar::variable")
 //@ spec func isIgn(v types.Value) bool = (v is types.EntityUID) && v.(types.EntityUID).Type == types.EntityType("__cedar::ignore")
 //@ spec func scopeMatch(env Env, e types.EntityUID, in ast.IsScopeNode) bool = (in is ast.ScopeTypeAll) ? true : ((in is ast.ScopeTypeEq) ? e == in.(ast.ScopeTypeEq).Entity : ((in is ast.ScopeTypeIn) ? reach(env, e, in.(ast.ScopeTypeIn).Entity) : ((in is ast.ScopeTypeInSet) ? (exists j int :: 0 <= j && j < len(in.(ast.ScopeTypeInSet).Entities) && reach(env, e, in.(ast.ScopeTypeInSet).Entities[j])) : ((in is ast.ScopeTypeIs) ? e.Type == in.(ast.ScopeTypeIs).Type : ((in is ast.ScopeTypeIsIn) ? (e.Type == in.(ast.ScopeTypeIsIn).Type && reach(env, e, in.(ast.ScopeTypeIsIn).Entity)) : false)))))
+//@ func ToVariable
+//@   pure
+//@   results key, ok
+//@   ensures ok == (ent.Type == types.EntityType("__cedar::variable"))
+//@   ensures ok ==> key == ent.ID
 //@ func IsVariable
 //@   pure
 //@   results r
